@@ -1,12 +1,12 @@
 /-
 Line-protocol driver for C13.  Strings are hex (`_` = empty string); `-` = empty list.
-  npm <dev> <opt> <prod> <ups>       section = k:v,k:v   ups = name:knownAs|~:from:to,…
-      → r=ok|err dev= opt= prod= reqs=<sorted name:ka:ver> wf=<0|1> spec=<sorted expected reqs>
+  npm <dev> <opt> <prod> <ups> <before>   section = k:v,k:v   ups = name:knownAs|~:from:to,…   before = name:ka:ver,… (real Read)
+      → r=ok|err dev= opt= prod= reqs=<sorted name:ka:ver> rb=<model's reading> wf=<0|1> spec=<substitute(before, ups)>
   pp <s1> <s2>                        → r=ok:<sorted k=v>|no|panic cons=<0|1> sound=<0|1|->
   ws <id|up|pr> <values k=v,…> <tokens S:name:attrs|E:name|T:text|C:text|O:text ,…>
       → out=<tokens> simple=<0|1> same=<0|1>        (writeString on one element; id = values are the element's own)
-  pom <projVersion> <deps> <props> <ups>
-      deps = origin:g:a:typ:cls:ver:ws,…  props = origin:name:value,…  ups = g:a:typ:cls:origin:from:to,…
+  pom <projVersion> <deps> <props> <ups> <before>
+      deps = origin:g:a:typ:cls:ver:ws,…  props = origin:name:value,…  ups = name:typ:cls:origin:from:to,…   before = origin:g:a:typ:cls:ver,… (real Read, effective versions)
       → r=ok deps=<sorted> props=<sorted> reqs=<sorted origin:g:a:typ:cls:ver> spec=<sorted> cls=<key|-> scope=<0|1>
 -/
 import Scalibr.Base.Wire
@@ -47,17 +47,30 @@ def showSec (s : Sec) : String := joinWith "," (s.map fun (k, v) => hexS k ++ ":
 def showReqs (rs : List Req) : String :=
   joinWith "," (sortStrs (rs.map fun r => hexS r.name ++ ":" ++ (match r.knownAs with | some k => hexS k | none => "~") ++ ":" ++ hexS r.ver))
 
-def handle (a b c u : String) : String :=
-  match parseSec a, parseSec b, parseSec c, parseUps u with
-  | some dev, some opt, some prod, some us =>
+/-- the requirement list the case carries: what the REAL `Read` reported for the file before the write -/
+def parseReqs (s : String) : Option (List Req) :=
+  (listOf s ",").mapM fun e =>
+    match e.splitOn ":" with
+    | [n, ka, v] => do
+      let n ← unhexS n; let v ← unhexS v
+      let ka ← if ka = "~" then some none else (unhexS ka).map some
+      some ⟨n, ka, v⟩
+    | _ => none
+
+def handle (a b c u before : String) : String :=
+  match parseSec a, parseSec b, parseSec c, parseUps u, parseReqs before with
+  | some dev, some opt, some prod, some us, some rb =>
     let d : Doc := ⟨dev, opt, prod⟩
     let wf := decide (WFdoc d) && us.all WFup
-    let spec := showReqs (substitute (requirements d) us)
+    -- the specification's verdict, from Spec definitions on the CASE: the requirements the real Read reported,
+    -- with the updates substituted.  `rb=` is the model's own reading of the sections (compared with the case's).
+    let spec := showReqs (substitute rb us)
+    let rbm := showReqs (requirements d)
     match write d us with
-    | .err => s!"r=err wf={boolStr wf} spec={spec}"
+    | .err => s!"r=err rb={rbm} wf={boolStr wf} spec={spec}"
     | .ok d' =>
-      s!"r=ok dev={showSec d'.dev} opt={showSec d'.opt} prod={showSec d'.prod} reqs={showReqs (requirements d')} wf={boolStr wf} spec={spec}"
-  | _, _, _, _ => "bad-op"
+      s!"r=ok dev={showSec d'.dev} opt={showSec d'.opt} prod={showSec d'.prod} reqs={showReqs (requirements d')} rb={rbm} wf={boolStr wf} spec={spec}"
+  | _, _, _, _, _ => "bad-op"
 end NpmDrv
 
 namespace PomDrv
@@ -91,7 +104,14 @@ def parseProps (s : String) : Option (List Prp) := do
 def parseUpds (s : String) : Option (List Upd) := do
   let es ← entries s
   es.mapM fun e => match e with
-    | [g, a, t, c, o, f, to] => some ⟨g, a, t, c, o, f, to⟩
+    | [n, t, c, o, f, to] => some ⟨n, t, c, o, f, to⟩
+    | _ => none
+
+/-- the requirement list the case carries: what the REAL `Read` reported before the write (effective versions) -/
+def parseReqs (s : String) : Option (List Req) := do
+  let es ← entries s
+  es.mapM fun e => match e with
+    | [o, g, a, t, c, v] => some ⟨o, (g, a, t, c), v⟩
     | _ => none
 
 def showDeps (ds : List Dep) : String :=
@@ -103,15 +123,19 @@ def showProps (ps : List Prp) : String :=
 def showReqs (rs : List Req) : String :=
   joinWith "," (sortStrs (rs.map fun r => ":".intercalate [hexS r.origin, hexS r.key.1, hexS r.key.2.1, hexS r.key.2.2.1, hexS r.key.2.2.2, hexS r.ver]))
 
-def handlePom (pv ds ps us : String) : String :=
-  match unhexS pv, parseDeps ds, parseProps ps, parseUpds us with
-  | some pv, some ds, some ps, some us =>
+def handlePom (pv ds ps us before : String) : String :=
+  match unhexS pv, parseDeps ds, parseProps ps, parseUpds us, parseReqs before with
+  | some pv, some ds, some ps, some us, some rb =>
     let pom : Pom := ⟨ds, ps, pv⟩
-    let pom' := write pom us
     let scope := us.all (fun u => !(hits pom u).isEmpty) && decide ((us.map (·.key)).Nodup)
     let cls := match feature pom us with | some k => k | none => "-"
-    s!"r=ok deps={showDeps pom'.deps} props={showProps pom'.props} reqs={showReqs (requirements pom')} spec={showReqs (substitute (requirements pom) us)} cls={cls} scope={boolStr scope}"
-  | _, _, _, _ => "bad-op"
+    -- spec: Spec.substitute on the requirements the case carries (the real Read's), wf: Spec.WFcase
+    let spec := showReqs (substitute rb us)
+    let tail := s!"rb={showReqs (requirements pom)} spec={spec} wf={boolStr (WFcase pom us)} cls={cls} scope={boolStr scope}"
+    match write pom us with
+    | none => s!"r=err {tail}"
+    | some pom' => s!"r=ok deps={showDeps pom'.deps} props={showProps pom'.props} reqs={showReqs (requirements pom')} {tail}"
+  | _, _, _, _, _ => "bad-op"
 end PomDrv
 
 namespace TokDrv
@@ -167,12 +191,12 @@ end TokDrv
 
 def handle (line : String) : String :=
   match line.splitOn " " with
-  | ["npm", a, b, c, u] => NpmDrv.handle a b c u
+  | ["npm", a, b, c, u, before] => NpmDrv.handle a b c u before
   | ["pp", a, b] => PomDrv.handlePP a b
   | ["ws", _kind, vals, toks, _src] => TokDrv.handleWs vals toks
-  | ["pom", pv, ds, ps, us] => PomDrv.handlePom pv ds ps us
-  | ["pomc", pv, ds, ps, us] => PomDrv.handlePom pv ds ps us   -- comment inside the first <version> (layout only)
-  | ["pomd", pv, ds, ps, us] => PomDrv.handlePom pv ds ps us   -- CDATA inside the first <version> (layout only)
+  | ["pom", pv, ds, ps, us, rb] => PomDrv.handlePom pv ds ps us rb
+  | ["pomc", pv, ds, ps, us, rb] => PomDrv.handlePom pv ds ps us rb   -- comment inside the first <version> (layout only)
+  | ["pomd", pv, ds, ps, us, rb] => PomDrv.handlePom pv ds ps us rb   -- CDATA inside the first <version> (layout only)
   | _ => "bad-op"
 
 def main : IO Unit := serve handle
